@@ -108,6 +108,7 @@ func (s *Server) servePacket(pc net.PacketConn) error {
 				packets <- packet{err: err}
 				return
 			}
+			verifHook("u.arrive", addr)
 			packets <- packet{
 				pooledBuf: buf,
 				n:         n,
@@ -132,6 +133,7 @@ func (s *Server) servePacket(pc net.PacketConn) error {
 			if udpConns[closed.addr.String()] == closed {
 				delete(udpConns, closed.addr.String())
 			}
+			verifHook("u.loopClose", closed)
 
 		case pkt := <-packets:
 			if pkt.err != nil {
@@ -157,6 +159,7 @@ func (s *Server) servePacket(pc net.PacketConn) error {
 					done:       make(chan struct{}),
 				}
 				udpConns[pkt.addr.String()] = conn
+				verifHook("u.new", conn)
 				go func(conn *packetConn) {
 					s.handle(conn)
 					// It might seem cleaner to send to closeCh here rather than
@@ -169,9 +172,13 @@ func (s *Server) servePacket(pc net.PacketConn) error {
 			}
 			select {
 			case conn.readCh <- &pkt:
+				if ok {
+					verifHook("u.enq", conn)
+				}
 			case <-conn.done:
 				// closed while its queue was full: the datagram is dropped
 				udpBufPool.Put(pkt.pooledBuf)
+				verifHook("u.drop", conn)
 			}
 		}
 	}
@@ -319,6 +326,7 @@ func (pc *packetConn) Read(b []byte) (n int, err error) {
 			// Closed by another goroutine. Return EOF below.
 			done = true
 		case pkt := <-pc.readCh:
+			verifHook("u.read", pc)
 			buf := bytes.NewReader(pkt.pooledBuf[:pkt.n])
 			n, err = buf.Read(b)
 			if buf.Len() == 0 {
@@ -348,6 +356,7 @@ func (pc *packetConn) Read(b []byte) (n int, err error) {
 	// the closure to ensure that if any new packets are received from this
 	// connection in the meantime, a new handler will be started.
 	pc.closeCh <- pc
+	verifHook("u.idle", pc)
 	// Returning EOF here ensures that io.Copy() waiting on the downstream for
 	// reads will terminate.
 	return 0, io.EOF
@@ -376,6 +385,7 @@ func (pc *packetConn) Close() error {
 	// We may have already done this earlier in Read(), but just in case
 	// Read() wasn't being called, (re-)notify server loop we're closed.
 	pc.closeCh <- pc
+	verifHook("u.close", pc)
 	// We don't call net.PacketConn.Close() here as we would stop the UDP
 	// server.
 	return nil
